@@ -327,3 +327,37 @@ def _desc_mutants(d):
             a2 = list(at)
             a2[idx], a2[j] = a2[j], a2[idx]
             yield (kind, tuple(a2), p), "placeholder moved"
+
+
+# ------------------------------------------------------------------------------------------------
+# carbon skeletons that 1-WL colour refinement cannot tell apart / with many automorphisms (C02, C05)
+# ------------------------------------------------------------------------------------------------
+def _ring(n, off=0):
+    return [(off + i, off + (i + 1) % n) for i in range(n)]
+
+
+SKELETONS = {
+    "K4_P4": (4, [(0, 1), (0, 2), (0, 3), (1, 2), (1, 3), (2, 3)]),
+    "prism": (6, _ring(3) + _ring(3, 3) + [(0, 3), (1, 4), (2, 5)]),
+    "K33": (6, [(i, j) for i in (0, 1, 2) for j in (3, 4, 5)]),
+    "hexagon": (6, _ring(6)),
+    "two_triangles": (6, _ring(3) + _ring(3, 3)),
+    "bicyclo111pentane": (5, [(0, 2), (0, 3), (0, 4), (1, 2), (1, 3), (1, 4)]),
+    "cube": (8, _ring(4) + _ring(4, 4) + [(i, i + 4) for i in range(4)]),
+    "decalin": (10, _ring(10) + [(0, 5)]),
+    "bicyclopentyl": (10, _ring(5) + _ring(5, 5) + [(0, 5)]),
+    "octagon_chord": (10, _ring(8) + [(0, 8), (4, 9)]),
+}
+SKELETON_NAMES = list(SKELETONS)
+
+
+def skeleton(cname, idx, renum=0):
+    """all-carbon skeleton; renum: index of a seeded renumbering of the atoms (0 = as listed)"""
+    n, bonds = SKELETONS[SKELETON_NAMES[idx]]
+    ids = list(range(n))
+    if renum:
+        random.Random(renum * 101 + idx).shuffle(ids)
+    s = gl.empty_spec(cname)
+    s["atoms"] = [(ids[i], "C", {}) for i in sorted(range(n), key=lambda i: ids[i])]
+    s["bonds"] = [(ids[a], ids[b], None, {}) for a, b in bonds]
+    return s
